@@ -167,13 +167,33 @@ func genHist(seed uint64, prop, tier string, audit bool, mode string) *Plan {
 		}
 		p.Cfgs = append(p.Cfgs, c)
 	}
-	p.Knobs["n_cfgs"] = nCfg
+	// a sibling for some option-setting configurations: the same lints named with other values, so that
+	// one run holds two configurations between which a named lint's verdict can flip back and forth
+	for i := 0; i < nCfg && len(p.Cfgs) < 6; i++ {
+		if c := p.Cfgs[i]; c.Class == "option" && len(c.Targets) > 0 && g.Chance(0.45) {
+			var sb strings.Builder
+			for _, t := range c.Targets {
+				sb.WriteString(legalSection(g, t, configurableFields(t)))
+			}
+			if tomlOK(sb.String()) {
+				p.Cfgs = append(p.Cfgs, CfgSpec{Class: "option", Text: sb.String(), Targets: c.Targets, Via: "string"})
+			}
+		}
+	}
+	p.Knobs["n_cfgs"] = len(p.Cfgs)
 	for _, c := range p.Cfgs {
 		for _, t := range c.Targets {
 			if isProbeName(t) || !g.Chance(0.6) || len(p.Objects) >= 9 {
 				continue
 			}
 			t := t
+			if t == "e_rsa_fermat_factorization" && g.Chance(0.6) {
+				// a key on which the configured round count decides the verdict
+				if o := synthWeakKeyCert(g, idx); o != nil {
+					p.Objects = append(p.Objects, *o)
+					continue
+				}
+			}
 			if o := pickClass(g, func(e *corpusClassEntry) bool { return inList(e.Conf, t) }); o != nil {
 				p.Objects = append(p.Objects, *o)
 			}
